@@ -397,6 +397,10 @@ def exec_step(step, sess, chains, audit):
         cfg = make_config(step['root'], sess)
         target = Path(sess['lab_root']) / step['target_name']
         buf = io.StringIO()
+        if step.get('pre_chain'):
+            # the caller had a look at the pipeline through this very config object before migrating it
+            pre = cfg.chain(parameter_mode=(step['pre_chain'] == 'param'))
+            obs['pre_chain_tasks'] = len(pre.tasks)
         with contextlib.redirect_stdout(buf):
             migrate_to_parameter_mode(cfg, target, dry=step.get('dry', True), verbose=step.get('verbose', False))
         obs['printed_lines'] = len(buf.getvalue().splitlines())
